@@ -17,6 +17,12 @@ use serde_json::{json, Value};
 use std::collections::BTreeSet;
 use std::sync::atomic::{AtomicUsize, Ordering};
 
+/// Every job ends within <= 300 steps (milliseconds). The interpreter's own time limit is set
+/// four orders of magnitude above that: a job that no longer ends by its step limit (because the
+/// limit's bookkeeping is disturbed by other instances) then ends with TimeLimitExceeded and a
+/// different final state instead of hanging the check.
+const JOB_TIME_LIMIT_MS: u64 = 8_000;
+
 fn job_strategy() -> BoxedStrategy<StateSpec> {
     let names = rand_free_names();
     let mut p = gen::StateParams::full(names.clone());
@@ -29,7 +35,7 @@ fn job_strategy() -> BoxedStrategy<StateSpec> {
         .prop_map(|(mut s, prog, limit)| {
             s.exec = vec![prog];
             s.config.eval_push_limit = limit;
-            s.config.eval_time_limit = u64::MAX / 4;
+            s.config.eval_time_limit = JOB_TIME_LIMIT_MS;
             s
         })
         .boxed()
@@ -76,7 +82,7 @@ fn sweep_jobs(seed: u64, per_instr: u64) -> Vec<StateSpec> {
             s.exec.insert(0, ItemSpec::Instr(name.clone()));
             s.exec.truncate(4);
             s.config.eval_push_limit = 30;
-            s.config.eval_time_limit = u64::MAX / 4;
+            s.config.eval_time_limit = JOB_TIME_LIMIT_MS;
             out.push(s);
         }
     }
@@ -105,7 +111,7 @@ fn boundary_jobs(seed: u64, per_instr: u64) -> Vec<StateSpec> {
         }
         s.exec = vec![ItemSpec::Instr(name)];
         s.config.eval_push_limit = 30;
-        s.config.eval_time_limit = u64::MAX / 4;
+        s.config.eval_time_limit = JOB_TIME_LIMIT_MS;
         out.push(s);
     }
     out
@@ -226,10 +232,11 @@ fn in_process(ctx: &Ctx, js: &[StateSpec]) -> (SubReport, Vec<String>) {
         let active = AtomicUsize::new(0);
         let max_active = AtomicUsize::new(0);
         let barrier = std::sync::Barrier::new(threads);
+        let mismatches = AtomicUsize::new(0);
         let results: Vec<Vec<(usize, String)>> = std::thread::scope(|sc| {
             let hs: Vec<_> = (0..threads)
                 .map(|t| {
-                    let (active, max_active, barrier, js) = (&active, &max_active, &barrier, js);
+                    let (active, max_active, barrier, js, mismatches, base) = (&active, &max_active, &barrier, js, &mismatches, &base);
                     std::thread::Builder::new()
                         .stack_size(128 << 20)
                         .spawn_scoped(sc, move || {
@@ -240,7 +247,14 @@ fn in_process(ctx: &Ctx, js: &[StateSpec]) -> (SubReport, Vec<String>) {
                             let mut out = vec![];
                             for k in 0..js.len() {
                                 let i = (k * 7 + t * 13) % js.len();
-                                out.push((i, run_job_text(&js[i], &mut m)));
+                                if mismatches.load(Ordering::SeqCst) >= 5 {
+                                    break; // enough evidence; do not sit out more time limits
+                                }
+                                let d = run_job_text(&js[i], &mut m);
+                                if d != base[i] {
+                                    mismatches.fetch_add(1, Ordering::SeqCst);
+                                }
+                                out.push((i, d));
                                 // also interleave graph work on this thread (shared counter)
                                 if k % 16 == 0 {
                                     let mut g = Graph::new();
@@ -336,7 +350,8 @@ fn library_final_stacks(text: &str, bin: &str, max_steps: usize) -> Option<(Stri
     iset.load();
     let cache = iset.cache();
     PushParser::parse_program(&mut st, &iset, text);
-    PushParser::copy_to_code_stack(&mut st);
+    // the library's own route onto the CODE stack (what PushInterpreter::run does first)
+    PushInterpreter::copy_to_code_stack(&mut st);
     st.name_bindings.insert("BIN".to_string(), Item::id(bin.to_string()));
     for _ in 0..max_steps {
         if crate::envelope::outside(&st) || crate::envelope::clamp_sizes(&mut st) {
@@ -379,7 +394,11 @@ fn cli(ctx: &Ctx, n: u64) -> SubReport {
             }
         }
         let prog = tame(&draw(&strat, &mut r));
-        let text = prog.render();
+        // every third program has several top-level items (the order of the copy onto CODE shows)
+        let text = match (&prog, i % 3) {
+            (ItemSpec::List(v), 0) if v.len() >= 2 => v.iter().map(|x| x.render()).collect::<Vec<_>>().join(" ") + " CODE.LENGTH CODE.DUP",
+            _ => prog.render(),
+        };
         crate::supervise::journal_value(&json!({"kind": "c14-cli", "program_text": text}));
         if text.contains('\0') {
             return;
@@ -510,7 +529,7 @@ pub fn run(ctx: &Ctx) -> PropReport {
         "DIFF on final-state digests: alone = after other jobs = repeated = concurrent on T threads = release build; CLI: the last EXEC / CODE / INT block printed by the binary equals the library's stacks for the same text with the same BIN binding; INV: all node ids pairwise distinct and distinct from ids handed out earlier.",
     );
     rep.assumptions.push("thread schedules are sampled by the OS, not enumerated: a defect that needs a rare interleaving can be missed (all interpreter state is owned by the PushState passed in; the only shared object is one atomic counter)".into());
-    let n = ctx.tier.pick(400u64, 6000u64);
+    let n = ctx.tier.pick(1200u64, 8000u64);
     let js = jobs(ctx.seed, n);
     rep.extra.insert("jobs_generated".into(), json!(n));
     rep.extra.insert("jobs_inside_envelope".into(), json!(js.len()));
@@ -518,7 +537,7 @@ pub fn run(ctx: &Ctx) -> PropReport {
     rep.push(a);
     rep.push(other_process(ctx, &js, &base, n, true));
     rep.push(other_process(ctx, &js, &base, n, false));
-    rep.push(cli(ctx, ctx.tier.pick(150, 2000)));
+    rep.push(cli(ctx, ctx.tier.pick(250, 2500)));
     rep.push(node_ids(ctx, ctx.tier.pick(20_000, 200_000)));
     rep
 }
